@@ -190,6 +190,7 @@ def check(run):
             "observed": small.obs_pretty(), "model": model_trace(run, small),
             "python": replay_snippet(small.expr, small.ops)}, found_input=False)
     check_seeded(run)
+    check_edges(run)
     check_tuple_patterns(run)
     if cases:
         run.sample({"expr": to_source(cases[0].expr), "ops": [list(o) for o in cases[0].ops], "observed": cases[0].obs_pretty()})
@@ -922,6 +923,231 @@ def check_tuple_patterns(run):
             "case": {"expr": to_source(small.expr), "expr_json": to_json(small.expr), "ops": [list(o) for o in small.ops]},
             "observed": small.obs_pretty(), "model": model_trace(run, small), "python": replay_snippet(small.expr, small.ops)}, found_input=False)
     run.cov["tuple_stratum"] = {"cases": len(cases), "deviating_from_fresh_instance": len(deviating)}
+
+
+# ==========================================================================================================
+# Edge stream: ARGUMENTS AT AND BEYOND THE EDGES of their domain, stochastic and deterministic classes alike - starting
+# values outside [min, max], min == max, min > max, zero / negative steps, lengths 0 and 1, empty and one-element lists,
+# probabilities 0 / 1 / outside [0, 1] - each consumed, reset, and compared with a newly constructed, identically seeded
+# instance.  The property quantifies over "all arguments in their documented domain": every recipe says whether its
+# arguments are inside what the class's docstring documents (judged by the oracle) or outside (run, counted, and compared
+# with the model where the class has one - the model takes the arguments as they are given -, never judged by the oracle).
+# Model: Pat/Chance.v machines through Pat/Seeded.v (Props/C04Edges.v: C04_brown_any_arguments, C04_brown_starts_at_init);
+# deterministic classes through Pat/Step.v like the main stream.
+# ==========================================================================================================
+def edge_recipes(r):
+    """(class, source, documented?, model machine term | None)"""
+    q = lambda x: "(%s # %d)" % (zlit(Fraction(x).numerator), Fraction(x).denominator)
+    out = []
+
+    def brown(i, st, mn, mx, dom):
+        m = None
+        if all(isinstance(v, int) for v in (i, st, mn, mx)):
+            m = "(of_machine replay (brown replay rp_below %s %s %s %s))" % (zlit(i), zlit(st), zlit(mn), zlit(mx))
+        out.append(("PBrown", "iso.PBrown(%r, %r, %r, %r)" % (i, st, mn, mx), dom, m))
+    lo = r.randint(0, 20); hi = lo + r.randint(2, 12)
+    # PBrown: "Output begins at initial_value ... with min <= values <= max": nothing restricts initial_value
+    brown(hi + r.randint(1, 9), r.randint(1, 3), lo, hi, True); brown(lo - r.randint(1, 9), r.randint(1, 3), lo, hi, True)
+    brown(hi, 1, lo, hi, True); brown(lo, 2, lo, hi, True); brown(lo, r.randint(1, 3), lo, lo, True); brown(lo + 5, 1, lo, lo, True)
+    brown(lo + 1, 0, lo, hi, True); brown(float(hi + 4), 0.5, float(lo), float(hi), True); brown(float(lo - 3), 1.5, float(lo), float(hi), True)
+    brown(lo, -1, lo, hi, False); brown(lo + 1, 1, hi, lo, False); brown(float(lo), -0.5, float(lo), float(hi), False)
+
+    def white(a, b, ln, dom):
+        m = "(of_machine replay (white replay rp_unit false (inject_Z %s) (inject_Z %s) %s))" % (zlit(a), zlit(b), zlit(ln)) if isinstance(a, int) and isinstance(b, int) else None
+        out.append(("PWhite", "iso.PWhite(%r, %r, %r)" % (a, b, ln), dom, m))
+    white(lo, lo, 0, True); white(lo, lo, 3, True); white(lo, hi, 1, True); white(float(lo), float(lo), 0, True); white(lo, hi, 0, True)
+    white(hi, lo, 0, False); white(lo, hi, -2, False)
+    for pr, dom in ((0, True), (1, True), (0.0, True), (1.0, True), (-0.5, False), (1.5, False)):
+        out.append(("PCoin", "iso.PCoin(%r)" % pr, dom, "(of_machine replay (coin replay rp_unit %s))" % q(pr)))
+        if dom:
+            out.append(("PCoin", "iso.PCoin(%r, True)" % pr, True, None))
+    v = _sints(r, 3, 5)
+    out += [("PRandomWalk", "iso.PRandomWalk(%r, 1, 2)" % v[:1], True, None), ("PRandomWalk", "iso.PRandomWalk(%r, 2, 2)" % v, True, None),
+            ("PRandomWalk", "iso.PRandomWalk(%r, 0, 0)" % v, True, None), ("PRandomWalk", "iso.PRandomWalk(%r, 1, 1, False)" % v, True, None),
+            ("PRandomWalk", "iso.PRandomWalk(%r, 3, 1)" % v, False, None)]
+    out += [("PChoice", "iso.PChoice(%r)" % v[:1], True, None), ("PChoice", "iso.PChoice(%r, %r)" % (v[:3], [0, 1, 0]), True, None),
+            ("PChoice", "iso.PChoice(%r, %r)" % (v[:3], [2, 2, 2]), True, None), ("PChoice", "iso.PChoice([])", False, None),
+            ("PChoice", "iso.PChoice(%r, %r)" % (v[:2], [0, 0]), False, None)]
+    out += [("PSample", "iso.PSample(%r, %d)" % (v, len(v)), True, None), ("PSample", "iso.PSample(%r, 1)" % v, True, None),
+            ("PSample", "iso.PSample(%r, 0)" % v, False, None), ("PSample", "iso.PSample(%r, %d)" % (v, len(v) + 1), False, None)]
+    for vals, rep in (([], 1), (v[:1], 2), (v, 0), (v, 1), ([], 0)):
+        out.append(("PShuffle", "iso.PShuffle(%r, %d)" % (vals, rep), True, "(of_machine replay (pshuffle replay rp_below %s %d))" % (zlist(vals), rep)))
+    out += [("PShuffleInput", "iso.PShuffleInput(iso.PSequence(%r, 1), 1)" % v, True, None), ("PShuffleInput", "iso.PShuffleInput(iso.PSequence([], 1), 3)", True, None),
+            ("PShuffleInput", "iso.PShuffleInput(iso.PSequence(%r, 1), 9)" % v, True, None), ("PShuffleInput", "iso.PShuffleInput(iso.PSequence(%r, 1), 0)" % v, False, None)]
+    for pl, dom in ((0, True), (1, True), (0.0, True), (1.0, True), (1.5, False), (-0.5, False)):
+        out.append(("PSkip", "iso.PSkip(iso.PSequence(%r, 2), %r)" % (v, pl), dom, None))
+    out += [("PSkip", "iso.PSkip(iso.PSequence([], 1), 0.5)", True, None), ("PSkip", "iso.PSkip(iso.PSeries(0, 1), 1, True)", True, None)]
+    for ini, on, off in ((0, 0, 0), (1, 1, 1), (0, 1, 0), (1, 0, 1), (0, 1.0, 1.0)):
+        out.append(("PFlipFlop", "iso.PFlipFlop(%r, %r, %r)" % (ini, on, off), True, "(of_machine replay (flipflop replay rp_unit %d %s %s))" % (ini, q(on), q(off))))
+    out += [("PSwitchOne", "iso.PSwitchOne(iso.PSequence(%r, 1), 1)" % v, True, None), ("PSwitchOne", "iso.PSwitchOne(iso.PSequence(%r, 1), %d)" % (v, len(v)), True, None),
+            ("PSwitchOne", "iso.PSwitchOne(iso.PSequence(%r, 1), %d)" % (v, len(v) + 2), True, None), ("PSwitchOne", "iso.PSwitchOne(iso.PSequence(%r, 1), 0)" % v, False, None)]
+    out += [("PRandomExponential", "iso.PRandomExponential(%d, %d)" % (hi, hi), True, None), ("PRandomExponential", "iso.PRandomExponential(1, 2)", True, None)]
+    out += [("PRandomImpulseSequence", "iso.PRandomImpulseSequence(0, 4)", True, None), ("PRandomImpulseSequence", "iso.PRandomImpulseSequence(1, 4)", True, None),
+            ("PRandomImpulseSequence", "iso.PRandomImpulseSequence(0.5, 1)", True, None), ("PRandomImpulseSequence", "iso.PRandomImpulseSequence(0.5, 0)", False, None)]
+    out += [("PMarkov", "iso.PMarkov([])", True, None), ("PMarkov", "iso.PMarkov([%d])" % v[0], True, None), ("PMarkov", "iso.PMarkov({1: [], 2: [1]})", True, None),
+            ("PMarkov", "iso.PMarkov({1: [1]})", True, None)]
+    out += [("PArpeggiator", "iso.PArpeggiator([%d], iso.PArpeggiator.RANDOM)" % v[0], True, None), ("PArpeggiator", "iso.PArpeggiator([%d], iso.PArpeggiator.RANDOM, True)" % v[0], True, None),
+            ("PArpeggiator", "iso.PArpeggiator([], iso.PArpeggiator.RANDOM)", False, None)]
+    return out
+
+
+def edge_exprs(r, gen):
+    """deterministic classes of engine P at the edges: lengths 0 / 1, empty lists, zero and negative counts and steps, bounds met exactly"""
+    seq = lambda xs, rep=1: E("PSequence", xs, rep)
+    s3 = seq([r.randint(-3, 9) for _ in range(3)])
+    one = seq([r.randint(0, 9)])
+    out = [E("PSeries", 3, 2, 0), E("PSeries", 3, 0, 4), E("PSeries", 3, -2, 1), E("PRange", 5, 5, 1), E("PRange", 5, 6, 1), E("PRange", 5, 0, 1), E("PRange", 0, 5, -1),
+           E("PRange", 5, 0, -5), E("PGeom", 3, 0, 4), E("PGeom", 0, 2, 3), E("PGeom", 2, 2, 0), E("PGeom", 2, -1, 1), seq([], 1), seq([], 3), seq([7], 0), seq([None], 2),
+           E("PImpulse", 1), E("PImpulse", 0), E("PLoop", seq([], 1), 2), E("PLoop", s3, 0), E("PLoop", one, 1), E("PPingPong", seq([], 1), 2), E("PPingPong", one, 2),
+           E("PPingPong", s3, 0), E("PStutter", s3, 0), E("PStutter", s3, 1), E("PStutter", seq([], 1), 3), E("PSubsequence", s3, 0, 0), E("PSubsequence", s3, 3, 2),
+           E("PSubsequence", s3, 2, 1), E("PSubsequence", s3, 5, 1), E("PReverse", seq([], 1)), E("PReverse", one), E("PPad", s3, 0), E("PPad", s3, 3), E("PPad", seq([], 1), 2),
+           E("PPadToMultiple", s3, 1), E("PPadToMultiple", s3, 3), E("PPadToMultiple", seq([], 1), 4, 0), E("PPadToMultiple", seq([], 1), 4, 1), E("PCollapse", seq([None, None], 1)),
+           E("PNoRepeats", seq([4, 4, 4], 1)), E("PNoRepeats", seq([], 1)), E("PChanged", one), E("PDiff", one), E("PChanged", seq([], 1)), E("PCounter", seq([0, 0], 1)),
+           E("PWrap", s3, 0, 1), E("PWrap", seq([5, 6], 1), 5, 6), E("PConcatenate", [seq([], 1), s3]), E("PConcatenate", [s3, seq([], 1)]), E("PConcatenate", [seq([], 1)]),
+           E("PArrayIndex", [7], seq([0, -1, 0], 1)), E("PIndexOf", [7], seq([7, 8], 1)), E("PSkipIf", s3, seq([], 1)), E("PRound", seq([0.5, 1.5, -0.5], 1)),
+           E("PEuclidean", 0, 1), E("PEuclidean", 1, 1), E("PEuclidean", 4, 4, 3), E("PArpeggiator", [5], 0), E("PArpeggiator", [5, 6], 8), E("PTri", 1, 0.0, 1.0), E("PSaw", 1, 0.0, 1.0),
+           E("PPermut", one, 1), E("PPermut", seq([], 1), 2), E("PNormalise", one), E("PNormalise", seq([3, 3, 3], 1))]
+    for _ in range(12):
+        x = r.choice(out)
+        out.append(E(r.choice(["PAbs", "PStutter", "PLoop"]), x) if r.random() < 0.5 else E("PAdd", x, r.randint(0, 3)))
+    return out
+
+
+def check_edges(run):
+    rng = run.rng
+    gen = Gen(rng, run)
+    # ---- stochastic classes
+    cases = []
+    for rnd in range(3 if run.tier == "thorough" else 1):
+        for cls, inner, dom, mterm in edge_recipes(rng):
+            for rep in range(2):
+                setup, ops = seeded_script(rng, {"inner": inner}, True)
+                if not setup:
+                    setup = [["call", "seed", [str(rng.randint(0, 9999))]]]
+                if rep == 1:
+                    ops = ops[next(i for i, o in enumerate(ops) if o != "next"):] if rng.random() < 0.5 else ["next"] + ops   # k = 0 and k >= 1
+                wrap = rng.choice(WRAPS[3:]) if rep == 1 and rng.random() < 0.4 else None
+                c = {"cls": cls, "inner": inner, "objs": None, "wrap": wrap, "setup": setup, "ops": ops, "stochastic": True, "documented": dom,
+                     "model": ("mach", mterm) if mterm and wrap is None and not any(isinstance(o, list) and o[0] == "all" for o in ops) else None, "edge": True}
+                c["record"] = c["model"] is not None
+                refs, seen = [], set()
+                for key, _, seed, cfgs in seeded_segments(dict(c, events=[{"y": None}] * len(ops))):
+                    su = list(seed) + cfgs
+                    if all_seeded(c, seed) and json.dumps(su) not in seen:
+                        seen.add(json.dumps(su)); refs.append({"setup": su, "n": S_REFN})
+                c["refs"] = refs
+                cases.append(c)
+    shards = 12
+    parts = [cases[i::shards] for i in range(shards) if cases[i::shards]]
+    outs = {}
+    for part, res in zip(parts, run.impl_parallel("c04_impl", [{"cases": [{k: c[k] for k in CASE_KEYS} for c in part]} for part in parts])):
+        for c, r in zip(part, res["cases"]):
+            outs[id(c)] = r
+    devs, terms, owners = [], [], []
+    for c in cases:
+        out = outs[id(c)]
+        run.count(); run.dist("stream.edges"); run.dist("edges." + c["cls"]); run.dist("edges.documented" if c["documented"] else "edges.outside-the-documented-domain")
+        try:
+            dev = seeded_judge(c, out)
+        except CannotJudge as e:
+            run.discard("edges: " + str(e)); continue
+        run.cov["oracle_evaluations"] += len(out["events"]) + sum(len(r) for r in out["refs"])
+        run.nontrivial("edge " + c["inner"] + repr(c["setup"]) + repr(c["ops"]) + repr(c["wrap"]))
+        if dev is not None:
+            if c["documented"]:
+                devs.append((bool(c["wrap"]), len(c["ops"]), len(devs), c, out, dev))
+            else:
+                run.dist("edges.outside-the-documented-domain.reset-differs-from-fresh")
+            continue
+        if c["model"] and out.get("epochs") is not None:
+            try:
+                if c["inner"].startswith("iso.PWhite("):
+                    a_, b_ = [int(x) for x in c["inner"][len("iso.PWhite("):].split(",")[:2]]
+                    for e in out["epochs"]:
+                        for _, k in e:
+                            x = a_ + (b_ - a_) * Fraction(k, 2 ** 53)
+                            if x != round(x) and abs(x - round(x)) < Fraction(1, 2 ** 30):
+                                raise Unrepresentable("margin")
+                t = seeded_term(dict(c, model=("arp", [0], False)), out)
+                terms.append(t.replace("(arp_random replay rp_below (rp_seed eps) %s %s)" % (zlist([0]), blit(False)), c["model"][1]))
+                owners.append((c, out))
+            except Unrepresentable as e:
+                run.discard("edges model: " + str(e).split(" ")[0])
+    reported = set()
+    for _, _, _, c, out, dev in sorted(devs, key=lambda t: t[:3]):
+        kind = "edge-fresh-seeded" if not dev["after_reset"] else "edge-seeded-reset"
+        key = json.dumps({"kind": kind, "class": c["cls"]})
+        if key in reported or len(reported) >= 5:
+            continue
+        reported.add(key)
+        run.violation({"kind": kind, "class": c["cls"], "nested": bool(c["wrap"])}, {
+            "case": {"seeded": {k2: c.get(k2) for k2 in DOC_KEYS}},
+            "expected": "clean segment %d (%s), output %d: %s  [%s]" % (
+                dev["segment"], "after reset()/all()" if dev["after_reset"] else "from construction + set-up", dev["index"], dev["expected"], dev["what"]),
+            "observed": dev["observed"], "segment_outputs": dev["segment_outputs"], "reference_outputs": dev["reference_outputs"],
+            "observed_events": [pretty_obs(o) for o in out["events"]],
+            "python": seeded_snippet(c) + "\n" + fresh_snippet(c, dev["seed"], dev["cfgs"], len(dev["segment_outputs"]))})
+    bad = run.coq_failing(SEEDED_HEADER, terms, chunk=60)
+    run.cov["traces_validated_against_impl"] += len(terms) - len(bad)
+    run.cov["edge_model_comparisons"] = len(terms)
+    for i in bad[:1]:
+        c, out = owners[i]
+        run.violation({"kind": "correspondence", "class": c["cls"], "model": "Pat/Chance.v machine at the edge of its domain"}, {
+            "broken": "correspondence Pat/Chance.v (%s, through Pat/Seeded.v of_machine) vs the implementation on arguments at / beyond the edge of "
+                      "the domain: the theorems of Props/C04Edges.v and C04_chance_classes_rewind no longer speak about this code" % c["model"][1],
+            "case": {"seeded": {k2: c.get(k2) for k2 in DOC_KEYS}}, "observed": [pretty_obs(o) for o in out["events"]], "epochs": out["epochs"],
+            "coq_term": terms[i], "python": seeded_snippet(c)}, found_input=False)
+    # ---- deterministic classes
+    exprs = edge_exprs(rng, gen)
+    refs = {to_source(e): Case(e, [("next", 0)] * REFN, "ref") for e in exprs}
+    run_impl(run, list(refs.values()), shards=4)
+    dcases = []
+    for e in exprs:
+        r = refs[to_source(e)]
+        if r.status or not r.obs or canon_obs(r.obs[0]) != "value null":
+            run.count(); run.discard("edges: constructor raised / timeout"); continue
+        stops = [i for i, o in enumerate(r.obs[1:]) if o == "stop"]
+        for _ in range(2):
+            ops, k = script(rng, stops[0] if stops else None)
+            dcases.append(Case(e, ops, "edge", {"k": k}))
+    run_impl(run, dcases, shards=6)
+    seen = set()
+    for c in dcases:
+        run.count(); run.dist("stream.edges"); run.dist("edges.deterministic")
+        if c.status:
+            run.discard("edges: impl-" + c.status); continue
+        r = refs[to_source(c.expr)]
+        try:
+            dev = judge(c, r)
+        except CannotJudge as e:
+            run.discard("edges oracle: " + str(e)); continue
+        run.cov["oracle_evaluations"] += len(c.obs)
+        run.nontrivial("edge " + to_source(c.expr) + repr(c.ops))
+        if dev is not None and root_cls(c.expr) not in seen and len(seen) < 4:
+            seen.add(root_cls(c.expr))
+            run.violation({"kind": "edge-reset", "class": root_cls(c.expr), "after": dev["opname"]}, {
+                "case": {"expr": to_source(c.expr), "expr_json": to_json(c.expr), "ops": [list(o) for o in c.ops]},
+                "expected": "operation %d (%s): %s  [what a newly constructed instance produces]" % (dev["op"], dev["opname"], dev["expected"]),
+                "observed": dev["observed"], "observed_outputs": c.obs_pretty(), "fresh_instance_outputs": r.obs_pretty(),
+                "python": replay_snippet(c.expr, c.ops[:dev["op"] + 1])})
+    mod = [c for c in dcases if not c.status]
+    run_model(run, mod)
+    for c in mod:
+        if c.verdict == "agree":
+            run.cov["traces_validated_against_impl"] += 1
+        elif c.verdict == "discard":
+            run.discard("edges model: " + (c.status or "?").split(":")[0])
+    for c in [c for c in mod if c.verdict == "disagree"][:1]:
+        run.violation({"kind": "correspondence", "class": root_cls(c.expr), "stream": "edges"}, {
+            "broken": "correspondence Pat/Step.v vs the implementation on %s with arguments at the edge of its domain" % root_cls(c.expr),
+            "case": {"expr": to_source(c.expr), "expr_json": to_json(c.expr), "ops": [list(o) for o in c.ops]},
+            "observed": c.obs_pretty(), "model": model_trace(run, c), "python": replay_snippet(c.expr, c.ops)}, found_input=False)
+
+
+META["text"] += (" Arguments at and beyond the edges of the domain (edge stream, check_edges): all stochastic classes and the deterministic classes of "
+                 "engine P with starting values outside [min, max], min = max, zero steps, lengths 0 / 1, empty lists, probabilities 0 / 1 - judged where the "
+                 "docstring documents the argument, compared with the Pat/Chance.v machines (which take their arguments as given: Props/C04Edges.v, "
+                 "C04_brown_any_arguments, C04_brown_starts_at_init) also beyond it.")
 
 
 def replay(run, doc):
